@@ -33,6 +33,9 @@ type SyscallFault struct {
 	Path  string `json:"path,omitempty"`
 	When  int    `json:"when"`
 	Errno string `json:"errno"` // EIO | ENOSPC
+	// Call: "" = write(2); "read" = read/pread64 (only with Path: table and log files are read back by compactions,
+	// recovery and scans); "sync" = fsync/fdatasync.
+	Call string `json:"call,omitempty"`
 }
 
 func SysGen() *rapid.Generator[Case] {
@@ -43,18 +46,28 @@ func SysGen() *rapid.Generator[Case] {
 		}
 		if rapid.Bool().Draw(t, "syscallfault") {
 			sf := &SyscallFault{Errno: rapid.SampledFrom([]string{"EIO", "ENOSPC"}).Draw(t, "errno")}
-			if rapid.IntRange(0, 3).Draw(t, "targeted") > 0 {
+			sf.Call = rapid.SampledFrom([]string{"", "", "", "read", "read", "sync"}).Draw(t, "call")
+			if sf.Call == "read" || rapid.IntRange(0, 3).Draw(t, "targeted") > 0 {
 				// a named file of the n-th flushed table or the n-th write-ahead log file
-				n := rapid.IntRange(1, 4).Draw(t, "n")
-				f := rapid.SampledFrom([]string{"data.rio", "index.rio", "bloom.bf.gz", "meta.pb.bin", "wal"}).Draw(t, "file")
+				n := rapid.IntRange(0, 4).Draw(t, "n") // log files count from 0, tables from 1
+				files := []string{"data.rio", "index.rio", "bloom.bf.gz", "meta.pb.bin", "wal"}
+				if sf.Call == "sync" {
+					files = []string{"wal"}
+				}
+				f := rapid.SampledFrom(files).Draw(t, "file")
 				if f == "wal" {
 					sf.Path = fmt.Sprintf("wal/%06d.wal", n)
 				} else {
 					sf.Path = fmt.Sprintf("sstable_%015d/%s", n, f)
 				}
 				sf.When = rapid.IntRange(1, 6).Draw(t, "when")
+			} else if sf.Call == "sync" {
+				sf.When = rapid.IntRange(1, 30).Draw(t, "when")
 			} else {
 				sf.When = rapid.IntRange(4, 120).Draw(t, "when")
+			}
+			if sf.Call == "read" {
+				sf.Errno = "EIO"
 			}
 			return Case{Kind: "system", Sys: &SysCase{Program: p, Syscall: sf}}
 		}
@@ -91,12 +104,17 @@ func sysProp(c Case, x *h.Ctx) *h.Violation {
 	cmd := exec.Command(filepath.Join(build, "runner"), pfile, root, ack)
 	if sc := c.Sys.Syscall; sc != nil {
 		x.Label("leg=system-syscall-fault")
-		args := []string{"-f", "-qq", "-o", "/dev/null", "-e", "trace=write"}
+		calls := map[string]string{"": "write", "read": "read,pread64", "sync": "fsync,fdatasync"}[sc.Call]
+		if calls == "" || (sc.Call == "read" && sc.Path == "") {
+			panic(h.Infra{Msg: "bad syscall fault in case"})
+		}
+		args := []string{"-f", "-qq", "-o", "/dev/null", "-e", "trace=" + calls}
 		if sc.Path != "" {
 			args = append(args, "-P", filepath.Join(root, sc.Path))
 			x.Label("syscall-fault-file=" + filepath.Base(filepath.Dir(sc.Path))[:3] + "/" + filepath.Ext(sc.Path))
 		}
-		args = append(args, "-e", fmt.Sprintf("inject=write:error=%s:when=%d", sc.Errno, sc.When), filepath.Join(build, "runner"), pfile, root, ack)
+		x.Label("syscall-fault-call=" + strings.SplitN(calls, ",", 2)[0])
+		args = append(args, "-e", fmt.Sprintf("inject=%s:error=%s:when=%d", calls, sc.Errno, sc.When), filepath.Join(build, "runner"), pfile, root, ack)
 		cmd = exec.Command("strace", args...)
 	}
 	cmd.Dir = work
@@ -243,16 +261,26 @@ func sysProp(c Case, x *h.Ctx) *h.Violation {
 	if opErr {
 		x.Label("operation-returned-error")
 	}
+	if sc := c.Sys.Syscall; sc != nil {
+		eff := "none-visible"
+		if exit != 0 {
+			eff = "child-stopped"
+		} else if opErr {
+			eff = "operation-returned-error"
+		}
+		x.Label("syscall-fault-effect=" + map[string]string{"": "write", "read": "read", "sync": "fsync"}[sc.Call] + "/" + eff)
+	}
 	x.SetNonTrivial(fired || (c.Sys.Syscall != nil && (exit != 0 || opErr)))
 	return nil
 }
 
 func faultDesc(sc *SysCase) string {
 	if sc.Syscall != nil {
+		call := map[string]string{"": "write(2)", "read": "read(2)/pread64(2)", "sync": "fsync(2)"}[sc.Syscall.Call]
 		if sc.Syscall.Path != "" {
-			return fmt.Sprintf("the %d-th write(2) to %s fails with %s", sc.Syscall.When, sc.Syscall.Path, sc.Syscall.Errno)
+			return fmt.Sprintf("the %d-th %s on %s (per thread) fails with %s", sc.Syscall.When, call, sc.Syscall.Path, sc.Syscall.Errno)
 		}
-		return fmt.Sprintf("the %d-th write(2) of a thread of the child fails with %s", sc.Syscall.When, sc.Syscall.Errno)
+		return fmt.Sprintf("the %d-th %s of a thread of the child fails with %s", sc.Syscall.When, call, sc.Syscall.Errno)
 	}
 	f := sc.Program.Fault
 	return fmt.Sprintf("%s #%d %s writer fails at write %d (sticky=%v)", f.Target, f.Nth, f.Which, f.Pos, f.Sticky)
